@@ -208,6 +208,23 @@ impl Monitor for C10 {
     fn run(&self, ctx: &mut Ctx) {
         let per = ctx.tier.pick(700u64, 25_000);
         for ev in ALL_EV {
+            // every name once more inside the shape family and the repeated-operand family: a function
+            // applied to `A op B`, to (b, G(a,b)) ... (gen::shape_family, gen::repeated_operand_family) -
+            // what a name computes must not depend on how its argument is written (seeded change C10-r10:
+            // root(n, x^n) returned as x)
+            for (c, e) in shape_family(ev).into_iter().chain(repeated_operand_family(ev)) {
+                if ctx.mine() {
+                    let s = c.replace("{h}", &format!("({})", e));
+                    let name: String = c.chars().take_while(|ch| ch.is_ascii_alphanumeric() || *ch == '_').collect();
+                    ctx.check(&Case::new(ev, "family", &s, Val::zero(ev)).with_extra(if name.is_empty() { "operator" } else { &name }), &|c, st| {
+                        let v = self.judge(c, st);
+                        if let Verdict::Pass { .. } = v {
+                            st.inc("family_members_confirmed");
+                        }
+                        v
+                    });
+                }
+            }
             let edges = edge_args(ev);
             let seconds = ["2", "3", "0.5", "10", "(0-1)"];
             for name in names(ev) {
